@@ -271,6 +271,13 @@ def run(ctx):
         ctx.sample(max(ev, key=lambda e: e["denseMulti"]))
     if mc:
         ctx.sample(mc[len(mc) // 2])
+    if ev:
+        import copy
+        bad = copy.deepcopy(next(e for e in ev if e["denseMulti"] >= 1))
+        bad["dense"][0][0] += bad["D"]          # still an image of the separation, but not a shortest one
+        ctx.binding_demo("dense vector replaced by a longer image", "MC_ShortestVectors", CFG,
+                         "---- MODULE MC_ShortestVectors ----\nEXTENDS ShortestVectors\nMCCases == {%s}\n====\n" % to_tla(bad),
+                         "ImplDenseIsMinSet")
     allc = ev + mc
     chunk = 6000
     for i in range(0, len(allc), chunk):
